@@ -91,6 +91,13 @@ func gen(p *simrt.Tape) any {
 	if p.Pct(20) {
 		pl.Missed = append(pl.Missed, startSlot+1+uint64(p.Intn(4)))
 	}
+	// reorgs: a changed current duty dependent root in the first epoch of a period makes vouch refresh the
+	// next period's sync duties; the current period's jobs must survive that
+	if p.Pct(35) {
+		for i, n := 0, p.Range(1, 2); i < n; i++ {
+			pl.Reorgs = append(pl.Reorgs, syssim.Reorg{Slot: startSlot + 1 + uint64(p.Intn(int(pl.HorizonSlots-startSlot))), Kind: []int{0, 0, 2, 1}[p.Pick(4)]})
+		}
+	}
 	switch p.Pick(4) {
 	case 0:
 		pl.HideSync, pl.HideSyncAccount = true, pl.Ours[p.Pick(len(pl.Ours))]
@@ -98,6 +105,13 @@ func gen(p *simrt.Tape) any {
 		// a batch signer (Dirk-like) can leave out one entry
 		pl.SyncZero, pl.SyncZeroSig = true, pl.Ours[p.Pick(len(pl.Ours))]
 		pl.AccountKind = int(KindMulti)
+	case 2:
+		if p.Bool() {
+			// ... or only the entry of the last signing step of an aggregating member
+			pl.ContribZero, pl.ContribZeroSig = true, pl.Ours[p.Pick(len(pl.Ours))]
+			pl.AccountKind = int(KindMulti)
+			pl.SyncCommitteeSize = 8 // few subcommittee seats: several of ours aggregate in one slot
+		}
 	}
 	if p.Pct(25) {
 		pl.Faults = map[string][]Outcome{"bn0/BeaconBlockRoot": {{}, {Kind: "error"}, {}, {}, {Kind: "error"}}}
@@ -428,6 +442,10 @@ func checkContributions(rec *syssim.Record, inc *syssim.Incarnation, f *syssim.D
 					found = cp
 				}
 			}
+			if pl.ContribZero && pl.ContribZeroSig == v {
+				out.Probes["member-excused-contribution-signature-withheld"]++
+				continue // whatever vouch does with the entry it got no signature for is not this property's business
+			}
 			if found != nil && !want {
 				return Viol("C15/contribution-by-unselected-member", "slot %d member %d subcommittee %d contributed although the specification's selection rule does not select it", s, v, sc)
 			}
@@ -437,6 +455,9 @@ func checkContributions(rec *syssim.Record, inc *syssim.Incarnation, f *syssim.D
 				}
 				if pl.SyncZero && pl.SyncZeroSig == v {
 					continue
+				}
+				if pl.ContribZero {
+					return Viol("C15/other-members-suppressed", "slot %d member %d is the selected aggregator of subcommittee %d but no contribution was submitted (member %d got no contribution signature)", s, v, sc, pl.ContribZeroSig)
 				}
 				return Viol("C15/selected-contributor-without-contribution", "slot %d member %d is the selected aggregator of subcommittee %d (specification rule on its selection proof) but no contribution was submitted", s, v, sc)
 			}
